@@ -395,7 +395,9 @@ Plan genCodec(const std::string& prop, int tier, uint64_t batchSeed, uint64_t id
         if (c10 && !wrapRun && !manyFrames && !swarmOfTiny && msgs.size() >= 1 && r.chance(1, 6))
         {
             // the same packets first go into a call that is aborted half way (other frame size), then into the real one
-            op.set("abort", static_cast<int64_t>(r.below(msgs.size()))).set("abwhere", static_cast<int64_t>(r.below(2)));
+            op.set("abort", static_cast<int64_t>(r.below(msgs.size()))).set("abwhere", static_cast<int64_t>(r.below(3)));
+            if (op.get("abwhere") == 2)
+                op.set("abort", static_cast<int64_t>(r.chance(1, 2) ? r.below(4) : r.below(24)));  // the k-th allocation inside the call fails
             op.set("abmax", r.chance(1, 2) ? maxB : r.pick<int64_t>({25, 40, 64, 300, 1500, 9000}));
         }
         op.sub = std::move(msgs);
